@@ -38,7 +38,8 @@ def load (filter : Filter) (w : World) : ErrClass × World :=
     let r := sysSeccomp SECCOMP_SET_MODE_FILTER filter.flag (mkFprog (.prog p)) w1
     let w3 := if filter.noNewPrivs = true then unlockOSThread r.2.2 else r.2.2
     if r.2.1 ≠ 0 then (.errno r.2.1, w3)          -- the kernel declined with an errno
-    else if r.1 ≠ 0 then (.other, w3)             -- thread-sync refused: positive return value
+    else if filter.flag &&& FLAG_TSYNC ≠ 0 ∧ r.1 ≠ 0 then (.other, w3)   -- thread-sync refused: positive return value
+                                                  -- (without thread-sync a positive value is a listener descriptor)
     else (.nil, w3)
 
 def supported (w : World) : Bool × World :=
